@@ -38,6 +38,31 @@ def report_detached(rep, w, fn_name) -> bool:
     for li in w.loops.values():
         if li.fn.name != fn_name or li.kind != "for":
             continue
+        # (b) the winner is recorded under a comparison with a value that never changes in the loop
+        from ..ir import subterms
+        k_it = ("iter", li.domain, li.lid)
+        for n2, (i2, e2) in li.carried.items():
+            t = e2
+            while t[0] == "sel":
+                c = t[1]
+                if c[0] == "cmp" and c[1] in ("<", "<=") and t[3] == ("phi", li.lid, n2) and t[2] == k_it:
+                    sides = [c[2], c[3]]
+                    def varying(x):
+                        for u in subterms(x):
+                            if u[0] == "phi" and (u[1] == li.lid or (u[1] in w.loops and li.lid in w.loops[u[1]].loops)):
+                                return True
+                            if u[0] in ("iter", "iterproj") and u[2] == li.lid:
+                                return True
+                            if u[0] in ("call", "ret"):
+                                return True
+                        return False
+                    inv = [x for x in sides if not varying(x)]
+                    if len(inv) == 1:
+                        hit = True
+                        rep.fn("BEST-running", li.fn, f"the value '{n2}' is compared with is the best value seen so far", False,
+                               f"candidates are accepted under '{show(c)[:100]}', whose reference '{show(inv[0])[:40]}' never changes "
+                               "in the loop: every candidate that beats the START value wins, the last one is kept", line=li.line)
+                t = t[2] if t[3] == ("phi", li.lid, n2) else t[3]
         for m, c, end in find_detached_scans(w, li):
             hit = True
             rep.fn("BEST-running", li.fn, f"the running best '{m}' is updated exactly when a candidate is accepted", False,
@@ -239,6 +264,123 @@ def check_uns(chk, rep, repo):
     return 1
 
 
+def check_normalized_cut(rep, repo):
+    """The criterion of the unsupervised selection is the normalised cut of the k-nn graph:
+    sum over clusters c of E_c / (I_c + E_c), where I_c / E_c accumulate 1 / d(i, j) over the arcs (i, j), j in the
+    adjacency prefix of i (plateau arcs + k neighbours), d > 0, with cluster(i) = c and cluster(j) equal / different."""
+    import dataclasses
+    from ..ir import facts, has_guard, mk_cmp, mk_not
+    from ..schema import as_selector, is_matrix_read, is_metric_call, node_loop, weight_names_pair
+    from ..termalg import TermAlgebra
+    from ..rules_heap import _sub, lin, lin_eq
+    w = model_walk(repo, "UnsupervisedOPF", "_normalized_cut")
+    fn = w.entry
+    G = ("attr", ("self",), "subgraph")
+    kparam = ("param", fn.params[1])
+    acc = []
+    for e in w.events:
+        if e.kind == "store" and e.aug == "+" and e.target[0] == "idx":
+            base = e.target[1]
+            if base[0] == "sel" and base[2][0] == "alloc" and base[3][0] == "alloc":
+                # `arr = internal if same else external; arr[c] += v`
+                acc.append(dataclasses.replace(e, target=("idx", base[2], e.target[2]), guards=e.guards + ((base[1], True),)))
+                acc.append(dataclasses.replace(e, target=("idx", base[3], e.target[2]), guards=e.guards + ((base[1], False),)))
+            elif base[0] == "alloc":
+                acc.append(e)
+    ok_shape = len(acc) == 2 and acc[0].target[1] != acc[1].target[1] and all(len(e.loops) == 2 for e in acc)
+    rep.fn("CUT-accumulators", fn, "two per-cluster accumulators are filled in the arc loop", ok_shape,
+           f"found {len(acc)} accumulation site(s) into local arrays")
+    if not ok_shape:
+        return
+    per, inner = w.loops[acc[0].loops[0]], w.loops[acc[0].loops[1]]
+    nl = node_loop(per)
+    full = nl is not None and nl[0] == G
+    rep.fn("CUT-all-nodes", fn, "every node's arcs are visited", full, f"outer loop domain '{show(per.domain)}'", line=per.line)
+    if not full:
+        return
+    N = nl[2]
+    dom = inner.domain
+    okdom = dom[0] == "call" and dom[1] == ("builtin", "range") and len(dom[2]) == 1 and lin_eq(
+        _sub(lin(dom[2][0]), lin(kparam)), {("attr", N, "n_plateaus"): 1})
+    rep.fn("CUT-arcs", fn, "the arcs of node i are its plateau arcs plus its k neighbours", okdom,
+           f"inner loop domain '{show(dom)}' (expected range(n_plateaus(i) + k))", line=inner.line)
+    r = ("iter", dom, inner.lid)
+    j = ("call", ("builtin", "int"), (("idx", ("attr", N, "adjacency"), r),), ())
+    Nj = ("idx", ("attr", G, "nodes"), j)
+    same = mk_cmp("==", ("attr", N, "cluster_label"), ("attr", Nj, "cluster_label"))
+    roles = {}
+    for e in acc:
+        arr = e.target[1]
+        okarr = arr[1] == "numpy.zeros" and arr[2] and arr[2][0] == ("attr", G, "n_clusters")
+        oki = e.target[2] == ("attr", N, "cluster_label")
+        v = e.value
+        W = v[3] if v[0] == "bin" and v[1] == "/" and v[2] in (("const", 1), ("const", 1.0)) else None
+        okw = W is not None and (as_selector(W) or is_matrix_read(W) or is_metric_call(W)) and weight_names_pair(W, N, Nj)
+        okpos = W is not None and (has_guard(e.guards, ("cmp", "<", ("const", 0.0), W)) or has_guard(e.guards, ("cmp", "<", ("const", 0), W)))
+        role = "internal" if has_guard(e.guards, same) else ("external" if has_guard(e.guards, mk_not(same)) else None)
+        ok = bool(okarr and oki and okw and okpos and role)
+        detail = ""
+        if not okarr:
+            detail = "the accumulator must be zeros(n_clusters), one slot per cluster"
+        elif not oki:
+            detail = "the arc is booked on a slot other than the cluster of node i"
+        elif not okw:
+            detail = "the amount added is not 1 / d(i, adjacency_r(i))"
+        elif not okpos:
+            detail = "the arc weight is used without the test d > 0 (division by zero for duplicated points)"
+        elif not role:
+            detail = "the arc is not classified by cluster(i) == cluster(j)"
+        rep.ev("CUT-arc-weight", e, ok, detail)
+        if role:
+            roles[role] = arr
+    rep.fn("CUT-roles", fn, "arcs inside a cluster and arcs leaving it are accumulated separately", set(roles) == {"internal", "external"},
+           f"roles found: {sorted(roles)}")
+    if set(roles) != {"internal", "external"}:
+        return
+    I, E = roles["internal"], roles["external"]
+    # the final sum
+    alg = TermAlgebra()
+    found = False
+    for li in w.loops.values():
+        if li.kind != "for" or li.loops:
+            continue
+        for name, (init, end) in li.carried.items():
+            phi = ("phi", li.lid, name)
+            t = end
+            cond = None
+            if t[0] == "sel" and t[3] == phi:
+                cond, t = t[1], t[2]
+            elif t[0] == "sel" and t[2] == phi:
+                cond, t = mk_not(t[1]), t[3]
+            if phi not in list(__import__("opfcheck.ir", fromlist=["subterms"]).subterms(t)):
+                continue
+            d = li.domain
+            if d[0] == "call" and d[1] == ("builtin", "range") and d[2] == (("attr", G, "n_clusters"),):
+                l = ("iter", d, li.lid)
+            elif d[0] == "call" and d[1] == ("builtin", "zip") and set(d[2]) == {I, E} and len(d[2]) == 2:
+                l = ("iterproj", d, li.lid, ("pos",))
+            else:
+                continue
+            found = True
+            Il, El = ("idx", I, l), ("idx", E, l)
+            try:
+                step = alg.conv(t) - alg.conv(phi)
+                okf = alg.equal(step, alg.conv(El) / (alg.conv(Il) + alg.conv(El)))
+            except Exception:
+                okf = False
+            tot = w.binop("+", Il, El)
+            okc = cond in (("cmp", "<", ("const", 0.0), tot), ("cmp", "<", ("const", 0), tot))
+            rep.fn("CUT-sum", fn, "cut = sum over clusters of external / (internal + external)", okf and init in (("const", 0.0), ("const", 0)),
+                   f"per-cluster term is '{show(t)[:140]}' starting from {show(init)}", line=li.line)
+            rep.fn("CUT-empty-cluster", fn, "clusters without arcs (internal + external = 0) are skipped", okc,
+                   f"the term is added under '{show(cond)[:100] if cond else 'no test'}'", line=li.line)
+            rets = [e for e in w.events if e.kind == "return" and e.fn is fn]
+            rep.fn("CUT-return", fn, "the accumulated cut is returned", len(rets) == 1 and rets[0].value == phi,
+                   f"returns '{show(rets[0].value)[:80] if rets else '?'}'")
+    rep.fn("CUT-sum-present", fn, "the per-cluster terms are summed over all clusters", found,
+           "no loop over range(n_clusters) (or over both accumulators) that accumulates the cut")
+
+
 def check(chk, repo):
     chk.explanation = EXPLANATION
     rep = Rep(chk, repo)
@@ -255,6 +397,7 @@ def check(chk, repo):
     check_typestate(chk, rep, repo)
     from .c12 import check_destroy
     check_destroy(rep, repo)
+    check_normalized_cut(rep, repo)
     from ..common import check_model_premises
     check_model_premises(rep, repo)
     # every forest is grown through the priority queue: its structural rules are a premise here too
